@@ -184,7 +184,7 @@ def e2e_part(ck: Check, rnd):
                 for dname, d in dirs.items():
                     d = d / np.linalg.norm(d)
                     label = f"{sname}|L{idx}|N={N}|dir={dname}"
-                    t = cs.trace(label, {"value_defect_small": -85 if g > 0.05 else -65, "value_law_excess": -100, "accel_law_excess": -100, "round_trip": -120},
+                    t = cs.trace(label, {"value_defect_small": (-85 if N >= 4 else -65) if g > 0.05 else -60, "value_law_excess": -100, "accel_law_excess": -100, "round_trip": -120},
                                  {"system": sname, "idx": idx, "N": N, "dir": dname})
                     ck.count(("taylor", label), True)
                     vd, ad = [], []
@@ -208,7 +208,7 @@ def e2e_part(ck: Check, rnd):
                                 ex = max(ex, max(0.0, (expo - 2.0) - math.log2(b / a)))   # one-sided: decaying faster than the law is fine
                         return ex
                     vfloor = max(1e-12, 1e3 * 2.2e-16 * max(1.0, abs(E0)) / g ** 2)      # rounding of (E - E_L) / gamma^2
-                    afloor = max(1e-12, 1e3 * 2.2e-16 * max(1.0, 1.0 / g))                 # accelerations near the secondary
+                    afloor = max(1e-11, 1e4 * 2.2e-16 * max(1.0, 1.0 / g))                 # accelerations near the secondary
                     cs.obs(t, "value_law_excess", excess(vd, N + 1, vfloor))
                     cs.obs(t, "accel_law_excess", excess(ad, N, afloor) if ad else 0.0)
                     t["data"] = dict(t["data"], value_defects=vd, accel_defects=ad)
